@@ -16,6 +16,8 @@ pub struct X {
     fail: bool,
     /// (message id, duration)
     durations: Vec<(u32, u32)>,
+    /// the actor runs an interval (period 2) it registered in started()
+    ticking: bool,
 }
 
 fn oracle(s: &ProgScene<X>, t: &Trace) -> Vec<Violation> {
@@ -168,6 +170,28 @@ fn oracle(s: &ProgScene<X>, t: &Trace) -> Vec<Violation> {
             }
         }
     }
+    // "carries on": an abandoned invocation takes nothing else with it - the interval the actor
+    // registered in started() still ticks a full period after the last abandonment (one-sided:
+    // a tick handled that late has been sent after it)
+    if x.ticking && !x.fail {
+        if let (Some(tm), Some(end)) = (x.timeout, term_time) {
+            let last_abandoned = handled
+                .iter()
+                .filter(|en| matches!(en.cb, Cb::Msg(id) if an.exit_of_msg(0, id).is_none()))
+                .map(|en| en.time + tm as u64)
+                .max();
+            if let Some(a) = last_abandoned.filter(|a| a + 3 < end) {
+                crate::check::oblige("carries-on-with-its-timers");
+                if !an.enters.iter().any(|e| e.a == 0 && matches!(e.cb, Cb::Tick { timer: 1, .. }) && e.time >= a + 2) {
+                    out.push(Violation {
+                        clause: "carries-on-with-its-timers",
+                        key: format!("C11/timers-lost-after-an-abandoned-invocation/{cfg}"),
+                        detail: format!("the last abandoned invocation was cut off at t={a}, the actor lived until t={end}, but its interval (period 2) was not handled once from t={} on", a + 2),
+                    });
+                }
+            }
+        }
+    }
     // carry on vs. fail
     let certain_exceed = handled.iter().any(|en| {
         let Cb::Msg(id) = en.cb else { return false };
@@ -279,8 +303,17 @@ fn make_case(timeout: Option<u32>, fail: bool, durs: &[u32], mailbox: Mailbox, l
     make_case_s(timeout, fail, durs, mailbox, layout, Strat::Default)
 }
 
+thread_local! {
+    /// the actor registers an interval (timer 1, period 2) in started()
+    static TICKING: std::cell::Cell<bool> = const { std::cell::Cell::new(false) };
+}
+
 fn make_case_s(timeout: Option<u32>, fail: bool, durs: &[u32], mailbox: Mailbox, layout: u8, strat: Strat) -> Case {
     let mut role = RoleCfg::default();
+    let ticking = TICKING.with(|t| t.get());
+    if ticking {
+        role.started_actions.push(crate::world::Action::Interval { timer: 1, period: 2 });
+    }
     let mut durations = vec![];
     for (k, d) in durs.iter().enumerate() {
         let id = 10 + k as u32;
@@ -332,7 +365,7 @@ fn make_case_s(timeout: Option<u32>, fail: bool, durs: &[u32], mailbox: Mailbox,
     let desc = format!(
         "timeout{}{} t={timeout:?} fail={fail} durations={durs:?} mailbox={} layout={layout} strategy={strat:?}",
         crate::progscene::variant_tag(),
-        if SPLIT.with(|s| s.get()) { " [handlers wait in one-tick pieces]" } else if DETACHED.with(|d| d.get()) { " [detached terminal spawn()]" } else { "" },
+        if ticking { " [an interval of period 2 is running]" } else if SPLIT.with(|s| s.get()) { " [handlers wait in one-tick pieces]" } else if DETACHED.with(|d| d.get()) { " [detached terminal spawn()]" } else { "" },
         mailbox.name()
     );
     Case {
@@ -344,7 +377,7 @@ fn make_case_s(timeout: Option<u32>, fail: bool, durs: &[u32], mailbox: Mailbox,
             attach: Attach::None,
             roles: vec![role],
             clients,
-            extra: X { strat, timeout, fail, durations },
+            extra: X { strat, timeout, fail, durations, ticking },
             oracle,
         }),
     }
@@ -457,6 +490,19 @@ fn cases(tier: Tier) -> Vec<Case> {
     // third case; thorough: all)
     let step = if tier == Tier::Thorough { 1 } else { 3 };
     v.extend(with_detached(|| base_cases(tier)).into_iter().enumerate().filter(|(i, c)| i % step == 0 && !c.desc.contains("t=None")).map(|(_, c)| c));
+    // an actor with a timer of its own: an abandoned invocation takes nothing else with it
+    TICKING.with(|t| t.set(true));
+    for &mb in &[Mailbox::U, Mailbox::B(1)] {
+        for layout in [0u8, 1] {
+            for durs in [vec![3u32], vec![3, 0], vec![0, 3, 1], vec![3, 3]] {
+                let mut c = make_case(Some(2), false, &durs, mb, layout);
+                // (tick handlers are instant: the limit's select! never has both arms ready for them)
+                c.bound = Some(if tier == Tier::Thorough { 5 } else { 3 });
+                v.push(c);
+            }
+        }
+    }
+    TICKING.with(|t| t.set(false));
     for order in 1..=3u8 {
         let var = crate::progscene::Variant { builder_order: order, ..Default::default() };
         let extra = crate::progscene::with_variant(var, || base_cases(tier));
@@ -470,7 +516,7 @@ pub fn property() -> Property {
     Property {
         id: "C11",
         cases,
-        clauses: &["no-restart-on-timeout", "below-limit-completes", "no-timeout-completes", "above-limit-abandoned", "tie-consistent", "fail-on-timeout-terminates", "carries-on"],
+        clauses: &["no-restart-on-timeout", "below-limit-completes", "no-timeout-completes", "above-limit-abandoned", "tie-consistent", "fail-on-timeout-terminates", "carries-on", "carries-on-with-its-timers"],
         full_rerun_check: true,
         assumptions: &[
             "handler durations are virtual sleeps; computation itself takes no virtual time (that is what 'needs less than t' means on the virtual clock)",
